@@ -55,6 +55,7 @@ type Contract struct {
 	Inline    bool   // always inline at call sites even though it has a contract (contract still verified)
 	NoInline  bool
 	Props     []string // properties this function's obligations serve (optional)
+	Fresh      bool    // `fresh`: the (first) result is an object allocated by this call
 	Ghost      string  // `ghosttrace p`: calls through the function-typed parameter p append their argument to the ghost sequence `trace` and answer vis(trace, arg)
 	FunctionOf string  // `function f`: the spec function f names the value this (deterministic) function returns
 	File      string
@@ -69,7 +70,7 @@ type ContractSet struct {
 
 var clauseKeywords = map[string]bool{"func": true, "use": true, "requires": true, "ensures": true,
 	"assigns": true, "decreases": true, "loop": true, "invariant": true, "trusted": true,
-	"inline": true, "noinline": true, "unroll": true, "props": true, "function": true, "ghosttrace": true, "hide": true}
+	"inline": true, "noinline": true, "unroll": true, "props": true, "function": true, "ghosttrace": true, "hide": true, "fresh": true}
 
 func splitLabel(s string) (string, string) {
 	s = strings.TrimSpace(s)
@@ -146,6 +147,8 @@ func (cs *ContractSet) loadFile(path string) error {
 			cur.Hide = append(cur.Hide, strings.Fields(rest)...)
 		case "props":
 			cur.Props = append(cur.Props, strings.Fields(rest)...)
+		case "fresh":
+			cur.Fresh = true
 		case "ghosttrace":
 			cur.Ghost = rest
 		case "function":
